@@ -9,10 +9,14 @@ func init() { Register(Area{Name: "CodecCode", Gen: genCodecCode}) }
 
 func genCodecCode(repo string) (string, error) {
 	body, err := Translate(repo, TransSpec{
-		Dir:     "strz",
-		Funcs:   []string{"lower", "upper", "parseUint", "appendUint", "toUpper", "OctalFormat", "OctalParse", "HexFormat", "HexParse"},
-		Std:     []string{"strconv.AppendUint"},
-		InPlace: true,
+		Dir: "strz",
+		Funcs: []string{"lower", "upper", "parseUint", "appendUint", "toUpper", "OctalFormat", "OctalParse", "HexFormat", "HexParse",
+			"UnicodeFormat", "UnicodeParse", "Utf16Format", "Utf16Parse"},
+		Std: []string{"strconv.AppendUint", "unicode/utf8.RuneCountInString", "unicode/utf8.DecodeRuneInString", "unicode/utf8.EncodeRune",
+			"unicode/utf16.EncodeRune", "unicode/utf16.DecodeRune"},
+		Identity:   []string{"UnsafeStrOrBytesToString"},
+		WrapSigned: true,
+		InPlace:    true,
 	})
 	if err != nil {
 		return "", err
